@@ -705,7 +705,9 @@ class C04(Spec):
             lines.append(rng.choice(UNTRUSTED_EXTRA) if rng.random() < 0.6 else gen.soup_doc(rng, 2))
         unt = '\n'.join(lines)
         later0 = rng.random() < 0.3
-        tail = [call('x', cb=True)] + [call(p, cb=True) for p in PROBES]
+        # two flush paragraphs: the first takes the pending block options (it is skipped under +skip, in which case the pending
+        # classes / id / css stay), the second takes what is still pending
+        tail = [call('x', cb=True), call('y', cb=True)] + [call(p, cb=True) for p in PROBES]
         if later0:
             tail = tail + [call(PROBES[0], safeMode=0, cb=True), call(PROBES[6], cb=True), call(PROBES[3], cb=True)]
         main = H([call(pre, safeMode=0, reset=True, cb=True), call(unt, safeMode=m, cb=True)] + tail, state=True)
@@ -734,7 +736,7 @@ class C04(Spec):
         if len(a) != len(b):
             return None
         bit8 = bool(case['meta']['mode'] & 8)
-        for k in range(3, len(a)):
+        for k in range(4, len(a)):
             src = case['calls'][k]['src']
             if bit8 and '{' in src:
                 # macros may legitimately change under bit 8; a changed macro invoked by a probe may in turn leave Block
@@ -1957,7 +1959,16 @@ class C18(Spec):
             _sys.path.insert(0, sys_path)
         for k in [k for k in _sys.modules if k == 'rimuc' or k.startswith('rimuc.')]:
             del _sys.modules[k]
-        resources = importlib.import_module('rimuc.resources').resources
+        resources = dict(importlib.import_module('rimuc.resources').resources)
+        # the reference for the layout header / footer is the resource *file* (the table in resources.py is generated from
+        # the files with the final line terminator dropped); a table that no longer mirrors the files shows as a difference
+        rdir = os.path.join(common.REPO, 'src', 'rimuc', 'resources')
+        if os.path.isdir(rdir):
+            for n in os.listdir(rdir):
+                if n.endswith('.rmu'):
+                    with open(os.path.join(rdir, n), newline='') as f:
+                        c = f.read()
+                    resources[n] = c[:-1] if c.endswith('\n') else c
         hist, meta = [], []
         for c in cases:
             p = cli_plan(c['argv'], c.get('files', []), c.get('rimurc'))
